@@ -712,6 +712,28 @@ pub fn execute(ctx: &Ctx, scv: &serde_json::Value, rd: &RunDir, stats: &mut Stat
                 }));
             }
         }
+        // metamorphic 4: a linked work tree (`git worktree add`) detached at the same commit sees the
+        // same history facts; its `.git` is a file, its HEAD is detached, its tree is clean
+        if last && vs.is_empty() && sc.cwd_mode == 0 {
+            if let Some(h) = w.head_commit() {
+                let wt = rd.dir.join("linked-wt");
+                let wt_s = wt.to_string_lossy().to_string();
+                let hash = w.commits[h].hash.clone();
+                if w.git(&["worktree", "add", "-q", "--detach", &wt_s, &hash], None, None).is_ok() {
+                    let mut w2 = w.clone();
+                    w2.dir = wt.clone();
+                    w2.head = Head::Detached(h);
+                    w2.dirt.clear();
+                    let obs5 = observe(ctx, rd, &w2, &sc.fmt, sc.sim_now, 0, "", stats);
+                    stats.bump("observations_linked_worktree");
+                    vs.extend(judge(&w2, &sc.fmt, sc.sim_now, &obs5, stats).into_iter().map(|mut x| {
+                        x.clause = format!("linked-worktree:{}", x.clause);
+                        x
+                    }));
+                    let _ = w.git(&["worktree", "remove", "--force", &wt_s], None, None);
+                }
+            }
+        }
         if last && stats.samples.is_empty() {
             stats.samples.push(serde_json::json!({
                 "skeleton": sc.skeleton, "fmt": sc.fmt, "ops": w.log, "head": format!("{:?}", w.head),
